@@ -8,6 +8,7 @@ package main
 
 import (
 	"fmt"
+	"go/types"
 	"os"
 	"sort"
 	"strings"
@@ -375,4 +376,142 @@ func (r *rwRT) ruleTermPanicSites() {
 	}
 	c.check(bad == "" && len(outs) > 0, "RW.TERM", "panic call sites are calls of the builtin", pos,
 		"a user-declared function named panic is not a terminating call", bad)
+}
+
+// RW.ITERPRED (C06, C13, C12): "is this the iterator type of the API" is decided by identity of the type — never by
+// its name. The predicate is evaluated itself (not answered as an oracle) in a symbolic type environment in which
+// a second named type exists whose every *name-like* answer (Name, Id, String, the printed type) equals that of
+// co.Iter but which is a different object of a different package: go/types' identity questions (types.Identical,
+// comparison of objects) distinguish the two, spellings do not. The predicate must answer false for the other
+// type on every path and true for an instance of co.Iter. (`Object.Id()` of an exported name is the bare name: a
+// user's own `Iter[T]` next to the API imported by name would be rewritten into seq.Iterator[T].)
+func (r *rwRT) ruleIterPred() {
+	c := r.c
+	c.min("RW.ITERPRED", 2)
+	fn := r.w.MethodOpt(pathRw, "rewriter", "isIterator")
+	if fn == nil {
+		undecided("method rewriter.isIterator not found (the iterator-type predicate the passes are guarded by)")
+	}
+	c.fn(relName(fn))
+	pos := r.w.FnPos(fn)
+	tp := r.w.importedPkg(pathRw, "go/types")
+	if tp == nil {
+		undecided("package rewriter does not import go/types")
+	}
+	namedPtr := types.NewPointer(tp.Scope().Lookup("Named").Type())
+	// lineage labels: iter = the object of co.Iter, iter.T = its (generic) type, inst = an instance Iter[int],
+	// other = a named type of another package with the same name
+	norm := func(l string) string {
+		for {
+			n := l
+			n = strings.ReplaceAll(n, ".T.Obj", "")
+			n = strings.ReplaceAll(n, ".Origin.Origin", ".Origin")
+			n = strings.ReplaceAll(n, ".T.Origin", ".T")
+			if strings.HasPrefix(n, "inst.Obj") {
+				n = "iter" + strings.TrimPrefix(n, "inst.Obj")
+			}
+			if strings.HasPrefix(n, "inst.Origin") {
+				n = "iter.T" + strings.TrimPrefix(n, "inst.Origin")
+			}
+			if n == l {
+				return l
+			}
+			l = n
+		}
+	}
+	mk := func(label string, asType bool) AV {
+		s := Sym{Name: norm(label), NN: true, Uniq: true}
+		if asType {
+			return Dyn{T: namedPtr, V: s}
+		}
+		return s
+	}
+	run := func(arg AV) (outs []Outcome) {
+		in := r.interp(rwConfig{root: fn, inlineAll: true, noOracles: true})
+		in.Fields["r.iterType"] = mk("iter", false)
+		in.OnCall = wrapOnCall(in.OnCall, func(cc *CallCtx) []Answer {
+			name, recv := "", AV(nil)
+			var rest []AV
+			switch {
+			case cc.Method != "":
+				name, recv, rest = cc.Method, cc.Recv, cc.Args
+			case cc.Fn != nil && fnPkgPath(cc.Fn) == "go/types":
+				name = cc.Fn.Name()
+				if cc.Fn.Signature.Recv() != nil && len(cc.Args) > 0 {
+					recv, rest = cc.Args[0], cc.Args[1:]
+				} else {
+					rest = cc.Args
+				}
+			default:
+				return nil
+			}
+			lab := func(v AV) string { return argLabel(unwrap(v)) }
+			switch name {
+			case "Name", "Id", "String", "TypeString", "ObjectString", "ExprString":
+				// every spelling is the same for the two types
+				return []Answer{{Ret: []AV{mkString("Iter")}, NoEvent: true}}
+			case "Exported":
+				return []Answer{{Ret: []AV{mkBool(true)}, NoEvent: true}}
+			case "Obj":
+				if recv != nil {
+					return []Answer{{Ret: []AV{mk(lab(recv)+".Obj", false)}, NoEvent: true}}
+				}
+			case "Type":
+				if recv != nil {
+					return []Answer{{Ret: []AV{mk(lab(recv)+".T", true)}, NoEvent: true}}
+				}
+			case "Origin":
+				if recv != nil {
+					return []Answer{{Ret: []AV{mk(lab(recv)+".Origin", true)}, NoEvent: true}}
+				}
+			case "Pkg":
+				if recv != nil {
+					root := strings.SplitN(norm(lab(recv)), ".", 2)[0]
+					if root == "inst" {
+						root = "iter"
+					}
+					return []Answer{{Ret: []AV{Sym{Name: "pkg:" + root, NN: true, Uniq: true}}, NoEvent: true}}
+				}
+			case "Path":
+				if recv != nil {
+					return []Answer{{Ret: []AV{mkString("path-of-" + lab(recv))}, NoEvent: true}}
+				}
+			case "Identical", "IdenticalIgnoreTags":
+				if len(rest) == 2 {
+					return []Answer{{Ret: []AV{mkBool(norm(lab(rest[0])) == norm(lab(rest[1])))}, Label: "identical(" + norm(lab(rest[0])) + "," + norm(lab(rest[1])) + ")"}}
+				}
+			}
+			return nil
+		})
+		outs = in.Run(newState(), fn, []AV{Sym{Name: "r", NN: true}, arg}, nil)
+		r.account(in)
+		return outs
+	}
+	verdict := func(outs []Outcome) (allTrue, allFalse bool, why string) {
+		allTrue, allFalse = len(outs) > 0, len(outs) > 0
+		for _, o := range outs {
+			if o.Panicked || len(o.Ret) != 1 {
+				return false, false, "a path panics or returns nothing: " + pathSummary(o)
+			}
+			b, known := asBool(o.Ret[0])
+			if !known {
+				return false, false, "the answer is not decided by identity questions about the type (it depends on " + canon(o.Ret[0]) + "): " + pathSummary(o)
+			}
+			if b {
+				allFalse = false
+				why = pathSummary(o)
+			} else {
+				allTrue = false
+				why = pathSummary(o)
+			}
+		}
+		return
+	}
+	_, otherFalse, why := verdict(run(mk("other", true)))
+	c.check(otherFalse, "RW.ITERPRED", "a different type with the same name", pos,
+		"a named type of another package whose name, Id and printed form equal those of co.Iter is not taken for the iterator type on any path",
+		"a named type that only *spells* like co.Iter (same Name / Id / printed form, different object and package) is taken for the iterator type: its mentions would be rewritten into seq.Iterator[T] and functions returning it would be treated as generators: "+why)
+	instTrue, _, why2 := verdict(run(mk("inst", true)))
+	c.check(instTrue, "RW.ITERPRED", "an instance of the API's iterator type", pos,
+		"an instance of co.Iter is recognised on every path", "an instance of co.Iter is not recognised: "+why2)
 }
